@@ -665,6 +665,10 @@ def run(prog: Program, chk: Check):
             # a key drawn from the table itself (`for t in self.subscriptions: ... self.subscriptions[t]`) is present
             own_key = any(isinstance(a_, ast.For) and keytxt in {n3.id for n3 in ast.walk(a_.target) if isinstance(n3, ast.Name)}
                           and norm(a_.iter).replace("list(", "").replace("tuple(", "").rstrip(")").split(".keys(")[0].split(".items(")[0] == tab for a_ in ancestors(x_))
+            # ... and so is a key drawn from a module's own record of its subscriptions (`for t in module.subs`): C01's mirror
+            # rules tie every entry of .subs to an insertion into the table under the same key
+            own_key = own_key or any(isinstance(a_, ast.For) and keytxt in {n3.id for n3 in ast.walk(a_.target) if isinstance(n3, ast.Name)}
+                                     and norm(a_.iter).replace("list(", "").replace("tuple(", "").rstrip(")").endswith(".subs") for a_ in ancestors(x_))
             if own_key:
                 K.ok(fkey(f_, f"own-key:{tag_}"), where(f_, x_), "key iterated from the table itself")
                 continue
